@@ -66,7 +66,7 @@ func CheckValue(v zed.Value) *Issue {
 		}
 	}
 	w := walker{}
-	return w.check(v.Type(), body, false, "", 0)
+	return w.check(v.Type(), body, false, 0)
 }
 
 type walker struct{}
@@ -120,21 +120,21 @@ func first(body []byte) (elem, int, string) {
 
 const maxDepth = 10000
 
-func (w *walker) check(typ zed.Type, body []byte, inSet bool, path string, depth int) *Issue {
+// check is allocation-free as long as the value is consistent (the harness
+// measures the allocations of the code under test around loops that call it):
+// paths are assembled only while an Issue travels back up.
+func (w *walker) check(typ zed.Type, body []byte, inSet bool, depth int) *Issue {
 	if depth > maxDepth {
-		return &Issue{Class: "depth", InSet: inSet, Path: path, Detail: "type nesting too deep"}
+		return &Issue{Class: "depth", InSet: inSet, Detail: "type nesting too deep"}
 	}
 	if typ == nil {
-		return &Issue{Class: "nil-type", InSet: inSet, Path: path, Detail: "nil type inside the value's type"}
-	}
-	bad := func(class, format string, args ...any) *Issue {
-		return &Issue{Class: class, InSet: inSet, Path: path, Detail: fmt.Sprintf(format, args...)}
+		return &Issue{Class: "nil-type", InSet: inSet, Detail: "nil type inside the value's type"}
 	}
 	switch typ := typ.(type) {
 	case *zed.TypeNamed:
-		return w.check(typ.Type, body, inSet, path, depth+1)
+		return w.check(typ.Type, body, inSet, depth+1)
 	case *zed.TypeError:
-		return w.check(typ.Type, body, inSet, path+"!", depth+1)
+		return under(w.check(typ.Type, body, inSet, depth+1), "!")
 	}
 	if body == nil {
 		return nil // null of any type
@@ -145,134 +145,178 @@ func (w *walker) check(typ zed.Type, body []byte, inSet bool, path string, depth
 		rest := body
 		for i, f := range typ.Fields {
 			if len(rest) == 0 {
-				return bad("record-arity", "record body has %d elements, type has %d fields", i, len(typ.Fields))
+				return bad(inSet, "record-arity", "record body has %d elements, type has %d fields", i, len(typ.Fields))
 			}
 			e, n, msg := first(rest)
 			if msg != "" {
-				return bad("framing", "record body, field %d: %s", i, msg)
+				return bad(inSet, "framing", "record body, field %d: %s", i, msg)
 			}
 			rest = rest[n:]
-			if is := w.check(f.Type, e.body, inSet, fmt.Sprintf("%s.%d", path, i), depth+1); is != nil {
-				return is
+			if is := w.check(f.Type, e.body, inSet, depth+1); is != nil {
+				return under(is, fmt.Sprintf(".%d", i))
 			}
 		}
 		if len(rest) != 0 {
-			return bad("record-trailing", "%d bytes follow the last of the %d fields in the record body", len(rest), len(typ.Fields))
+			return bad(inSet, "record-trailing", "%d bytes follow the last of the %d fields in the record body", len(rest), len(typ.Fields))
 		}
 		return nil
 	case *zed.TypeArray:
-		elems, msg := split(body)
-		if msg != "" {
-			return bad("framing", "array body: %s", msg)
-		}
-		for _, e := range elems {
-			if is := w.check(typ.Type, e.body, inSet, path+"[]", depth+1); is != nil {
-				return is
+		for rest := body; len(rest) > 0; {
+			e, n, msg := first(rest)
+			if msg != "" {
+				return bad(inSet, "framing", "array body: %s", msg)
+			}
+			rest = rest[n:]
+			if is := w.check(typ.Type, e.body, inSet, depth+1); is != nil {
+				return under(is, "[]")
 			}
 		}
 		return nil
 	case *zed.TypeSet:
-		elems, msg := split(body)
-		if msg != "" {
-			return bad("framing", "set body: %s", msg)
-		}
-		for i, e := range elems {
-			if i > 0 {
-				switch c := bytes.Compare(elems[i-1].raw, e.raw); {
+		// framing and order of the whole set first, then the interiors
+		var prev []byte
+		i := 0
+		for rest := body; len(rest) > 0; i++ {
+			e, n, msg := first(rest)
+			if msg != "" {
+				return bad(inSet, "framing", "set body: %s", msg)
+			}
+			rest = rest[n:]
+			if prev != nil {
+				switch c := bytes.Compare(prev, e.raw); {
 				case c == 0:
-					return bad("set-dup", "set elements %d and %d are identical", i-1, i)
+					return bad(inSet, "set-dup", "set elements %d and %d are identical", i-1, i)
 				case c > 0:
-					return bad("set-order", "set element %d sorts before element %d", i, i-1)
+					return bad(inSet, "set-order", "set element %d sorts before element %d", i, i-1)
 				}
 			}
+			prev = e.raw
 		}
-		for _, e := range elems {
-			if is := w.check(typ.Type, e.body, true, path+"|[]|", depth+1); is != nil {
-				return is
+		for rest := body; len(rest) > 0; {
+			e, n, _ := first(rest)
+			rest = rest[n:]
+			if is := w.check(typ.Type, e.body, true, depth+1); is != nil {
+				return under(is, "|[]|")
 			}
 		}
 		return nil
 	case *zed.TypeMap:
-		elems, msg := split(body)
-		if msg != "" {
-			return bad("framing", "map body: %s", msg)
-		}
-		if len(elems)%2 != 0 {
-			return bad("map-odd", "map body has an odd number (%d) of elements", len(elems))
-		}
-		for i := 2; i < len(elems); i += 2 {
-			switch c := bytes.Compare(elems[i-2].raw, elems[i].raw); {
-			case c == 0:
-				return bad("map-dup", "map keys %d and %d are identical", i/2-1, i/2)
-			case c > 0:
-				return bad("map-order", "map key %d sorts before key %d", i/2, i/2-1)
+		var prev []byte
+		i := 0
+		for rest := body; len(rest) > 0; i++ {
+			k, n, msg := first(rest)
+			if msg != "" {
+				return bad(inSet, "framing", "map body: %s", msg)
 			}
-		}
-		for i := 0; i < len(elems); i += 2 {
-			if is := w.check(typ.KeyType, elems[i].body, inSet, path+"{k}", depth+1); is != nil {
-				return is
+			rest = rest[n:]
+			if len(rest) == 0 {
+				return bad(inSet, "map-odd", "map body has an odd number (%d) of elements", 2*i+1)
 			}
-			if is := w.check(typ.ValType, elems[i+1].body, inSet, path+"{v}", depth+1); is != nil {
-				return is
+			_, n, msg = first(rest)
+			if msg != "" {
+				return bad(inSet, "framing", "map body: %s", msg)
+			}
+			rest = rest[n:]
+			if prev != nil {
+				switch c := bytes.Compare(prev, k.raw); {
+				case c == 0:
+					return bad(inSet, "map-dup", "map keys %d and %d are identical", i-1, i)
+				case c > 0:
+					return bad(inSet, "map-order", "map key %d sorts before key %d", i, i-1)
+				}
+			}
+			prev = k.raw
+		}
+		for rest := body; len(rest) > 0; {
+			k, n, _ := first(rest)
+			rest = rest[n:]
+			v, n, _ := first(rest)
+			rest = rest[n:]
+			if is := w.check(typ.KeyType, k.body, inSet, depth+1); is != nil {
+				return under(is, "{k}")
+			}
+			if is := w.check(typ.ValType, v.body, inSet, depth+1); is != nil {
+				return under(is, "{v}")
 			}
 		}
 		return nil
 	case *zed.TypeUnion:
-		elems, msg := split(body)
-		if msg != "" {
-			return bad("framing", "union body: %s", msg)
+		if len(body) == 0 {
+			return bad(inSet, "union-arity", "union body has 0 elements, want 2")
 		}
-		if len(elems) != 2 {
-			return bad("union-arity", "union body has %d elements, want 2", len(elems))
+		t, n, msg := first(body)
+		if msg != "" {
+			return bad(inSet, "framing", "union body: %s", msg)
+		}
+		rest := body[n:]
+		if len(rest) == 0 {
+			return bad(inSet, "union-arity", "union body has 1 element, want 2")
+		}
+		v, n, msg := first(rest)
+		if msg != "" {
+			return bad(inSet, "framing", "union body: %s", msg)
+		}
+		if len(rest[n:]) != 0 {
+			return bad(inSet, "union-arity", "union body has more than 2 elements")
 		}
 		// A null tag decodes as 0 everywhere in the code base (DecodeInt(nil)
 		// is 0); it is accepted here as tag 0 rather than called an
 		// inconsistency.
-		tb := elems[0].body
-		tag := countedVarint(tb)
+		tag := countedVarint(t.body)
 		if tag < 0 || tag >= int64(len(typ.Types)) {
-			return bad("union-tag", "union tag %d out of range for %d member types", tag, len(typ.Types))
+			return bad(inSet, "union-tag", "union tag %d out of range for %d member types", tag, len(typ.Types))
 		}
-		return w.check(typ.Types[tag], elems[1].body, inSet, fmt.Sprintf("%s(%d)", path, tag), depth+1)
+		if is := w.check(typ.Types[tag], v.body, inSet, depth+1); is != nil {
+			return under(is, fmt.Sprintf("(%d)", tag))
+		}
+		return nil
 	case *zed.TypeEnum:
 		if sel := countedUvarint(body); sel >= uint64(len(typ.Symbols)) {
-			return bad("enum-selector", "enum selector %d out of range for %d symbols", sel, len(typ.Symbols))
+			return bad(inSet, "enum-selector", "enum selector %d out of range for %d symbols", sel, len(typ.Symbols))
 		}
 		return nil
 	}
-	want := func(ns ...int) *Issue {
-		for _, n := range ns {
-			if len(body) == n {
-				return nil
-			}
-		}
-		return bad("prim-length", "%s body is %d bytes, want %v", primName(typ.ID()), len(body), ns)
-	}
+	ok := true
 	switch typ.ID() {
 	case zed.IDBool:
-		return want(1)
+		ok = len(body) == 1
 	case zed.IDFloat16:
-		return want(2)
+		ok = len(body) == 2
 	case zed.IDFloat32:
-		return want(4)
+		ok = len(body) == 4
 	case zed.IDFloat64:
-		return want(8)
+		ok = len(body) == 8
 	case zed.IDIP:
-		return want(4, 16)
+		ok = len(body) == 4 || len(body) == 16
 	case zed.IDNet:
-		return want(8, 32)
+		ok = len(body) == 8 || len(body) == 32
 	case zed.IDType:
-		tv := typeValue{defs: map[string]bool{}}
+		var tv typeValue
 		rest, msg := tv.parse(body, 0)
 		if msg != "" {
-			return bad("type-value", "%s", msg)
+			return bad(inSet, "type-value", "%s", msg)
 		}
 		if len(rest) != 0 {
-			return bad("type-value", "%d bytes after the end of the type value", len(rest))
+			return bad(inSet, "type-value", "%d bytes after the end of the type value", len(rest))
 		}
 		return nil
 	}
+	if !ok {
+		return bad(inSet, "prim-length", "%s body is %d bytes", primName(typ.ID()), len(body))
+	}
 	return nil
+}
+
+func bad(inSet bool, class, format string, args ...any) *Issue {
+	return &Issue{Class: class, InSet: inSet, Detail: fmt.Sprintf(format, args...)}
+}
+
+// under prefixes the path of an issue found below a node.
+func under(is *Issue, seg string) *Issue {
+	if is != nil {
+		is.Path = seg + is.Path
+	}
+	return is
 }
 
 func primName(id int) string {
@@ -372,6 +416,9 @@ func (t *typeValue) parse(b []byte, depth int) ([]byte, string) {
 		}
 		if b, msg = t.parse(b, depth+1); msg != "" {
 			return nil, msg
+		}
+		if t.defs == nil {
+			t.defs = map[string]bool{}
 		}
 		t.defs[name] = true
 		return b, ""
@@ -530,7 +577,7 @@ func typeLeaves(typ zed.Type, body []byte, depth int, out *[][]byte) {
 // TypeValueOK reports whether tv is a complete well-formed type value by the
 // walker's own parser.
 func TypeValueOK(tv []byte) bool {
-	t := typeValue{defs: map[string]bool{}}
+	var t typeValue
 	rest, msg := t.parse(tv, 0)
 	return msg == "" && len(rest) == 0
 }
